@@ -567,6 +567,20 @@ func gen(seed uint64, tier string) {
 			genCrs(r, w, k)
 		}
 	}
+	// a datum given by the NAME WGS84 on an ellipsoid that compare_datums cannot tell from WGS84's (a = 6378137, es within
+	// 5e-11: GRS80, and 1/f = 298.257224) — every kind, in every run: the two notations give the codes WGS84 / wgs84, and a
+	// case-sensitive test of the code in NewTransform's checkNotWGS sends only one of them through defs["WGS84"]
+	// (16-100 micrometres through a 7-parameter reference; fixed finding wgs84name, b165df1)
+	for i, k := range []string{"geog", "merc", "lcc", "aea", "eqdc", "tmerc", "geog", "tmerc", "lcc"} {
+		f := strings.Fields(crsTokens(r, k))
+		f[10], f[11] = "6378137", []string{"298.257222101", "298.257224"}[i%2]
+		f[12], f[14] = "none", "wgs84"
+		if i == 0 {
+			f[15] = "-"
+			f[16], f[17] = "10", "50"
+		}
+		fmt.Fprintf(w, "crs %s\n", strings.Join(f, " "))
+	}
 	for i := 0; i < nCrs; i++ {
 		genCrs(r, w, "")
 	}
